@@ -49,12 +49,10 @@ func zzvNewEnv(bufSize, width int) *zzvEnv {
 }
 
 func (e *zzvEnv) inject(write bool) bool {
-	r := &zzvReq{isWrite: write, addr: verif.U64(), pid: vm.PID(verif.U32())}
 	// forwarded copies carry new IDs, so the monitor recognises a request on
-	// the bottom port by its content: addresses are pairwise distinct
-	for _, o := range e.reqs {
-		verif.Assume(o.addr != r.addr)
-	}
+	// the bottom port by its content: every request has its own (concrete)
+	// address; pid, size, data and mask stay symbolic
+	r := &zzvReq{isWrite: write, addr: 0x1000 * uint64(len(e.reqs)+1), pid: vm.PID(verif.U32())}
 	if write {
 		r.data = verif.Bytes(4)
 		r.mask = []bool{verif.Bool(), verif.Bool(), verif.Bool(), verif.Bool()}
@@ -331,6 +329,13 @@ func (e *zzvEnv) ctrlAck(phase int) int {
 		return 2
 	}
 	if phase == 3 {
+		// restart drains the ports: requests delivered between the flush and
+		// the restart were never accepted and are dropped with the rest
+		for _, r := range e.reqs {
+			if !r.answered {
+				r.discarded = true
+			}
+		}
 		// everything still buffered towards the bottom belongs to discarded requests
 		for e.rb.bottomPort.RetrieveOutgoing() != nil {
 		}
